@@ -29,7 +29,7 @@ pub fn op_kind(op: &Op) -> &'static str {
         Op::LoseCallback { .. } => "lose_callback",
         Op::Stray(_) => "stray_callback",
         Op::Admin(AdminOp::Breaker) => "admin_breaker",
-        Op::Admin(AdminOp::Resume { .. }) | Op::Admin(AdminOp::ResumeSame) => "admin_resume",
+        Op::Admin(AdminOp::Resume { .. }) | Op::Admin(AdminOp::ResumeSame) | Op::Admin(AdminOp::ResumeRewardOnly { .. }) => "admin_resume",
         Op::Admin(AdminOp::UpdateConfig(_)) => "admin_update_config",
         Op::Admin(AdminOp::FeeWithdraw { .. }) | Op::Admin(AdminOp::FeeWithdrawPct { .. }) => "admin_fee_withdraw",
         Op::Admin(AdminOp::AddValidator(_)) | Op::Admin(AdminOp::RemoveValidator(_)) => "admin_validator",
@@ -249,7 +249,18 @@ impl Engine {
                             let e = e.to_string();
                             self.m.lost_cb.insert(id);
                             self.stats.probe("timeout_callback_errored_and_was_dropped");
-                            self.vo("C07", "timeout_callback_accepted", format!("the timeout callback of tracked transfer {} (sequence {}) was answered with an error ({}); ibc-hooks does not deliver a failed timeout callback again, so the transfer stays recorded as in flight although its funds were refunded, and no non-admin can recover them", id, self.w.st.packets[id].seq, e));
+                            let m = format!("the timeout callback of tracked transfer {} (sequence {}) was answered with an error ({}); ibc-hooks does not deliver a failed timeout callback again, so the transfer stays recorded as in flight although its funds were refunded, and no non-admin can recover them", id, self.w.st.packets[id].seq, e);
+                            self.vo("C07", "timeout_callback_accepted", m.clone());
+                            // the refunded value is from now on in the contract's account without being recorded as refundable
+                            let pk = self.w.st.packets[id].clone();
+                            if pk.denom == self.lst {
+                                self.vo("C03", "refundable_lst_is_recorded", m);
+                            } else if pk.denom == self.ibc() {
+                                self.vo("C02", "refundable_value_is_recorded", m.clone());
+                                if pk.receiver == self.m.cfg.staker {
+                                    self.vo("C01", "refunded_stake_is_recorded", m);
+                                }
+                            }
                         }
                     }
                 }
@@ -464,6 +475,9 @@ impl Engine {
             // un-faucet so ledgers stay simple: the user keeps the vouchers, which is harmless
             if must_fail.is_none() && !res.env_fault {
                 self.stats.probe("stake_failed_unexpectedly");
+                if self.in_domain && !res.panicked && native_user.is_none() {
+                    self.vo("C04", "valid_stake_accepted", format!("LiquidStake of {} (minimum {}, would mint {:?}, expected_mint {:?}) by {} to {:?} was refused: {}", amount, self.m.cfg.min_stake, mint_opt, expected_mint, sender, mint_to, res.err));
+                }
             }
             return;
         }
@@ -1020,6 +1034,21 @@ impl Engine {
         let possible = !nonexistent && !distinct.is_empty() && same_receiver && !mixed;
         if res.ok && !possible {
             self.v("C07", "forced_recover_validates_selection", format!("forced recovery succeeded with nonexistent={} same_receiver={} mixed={}", nonexistent, same_receiver, mixed));
+            if !same_receiver && !distinct.is_empty() {
+                // the refunded value of one receiver was re-sent to another account
+                let lst = self.lst.clone();
+                let ibc = self.ibc();
+                let m = format!("forced recovery re-sent the refunded transfers {:?} to {} although they were addressed to {:?}", distinct.iter().map(|p| (p.seq, p.amount, p.denom.clone())).collect::<Vec<_>>(), target, distinct.iter().map(|p| p.receiver.clone()).collect::<Vec<_>>());
+                if distinct.iter().any(|p| p.denom == lst) {
+                    self.v("C03", "lst_resent_to_the_chosen_recipient", m.clone());
+                }
+                if distinct.iter().any(|p| p.denom == ibc) {
+                    self.v("C02", "recovery_pays_the_right_claim", m.clone());
+                    if distinct.iter().any(|p| p.denom == ibc && p.receiver == self.m.cfg.staker) {
+                        self.v("C01", "stake_resent_only_to_the_staker", m);
+                    }
+                }
+            }
             return;
         }
         if honest {
